@@ -1,4 +1,4 @@
 From Coq Require Extraction.
 From Coq Require Import ExtrOcamlBasic.
 From RM Require Import C06.Driver C07.Walker C07.Driver.
-Extraction "c07_model.ml" run_mock7 run_real7 run_mock7_text run_real7_text run_frames7 run_frames7_text run_walk7 x_eip x_esp x_ebp o_status o_cfa o_ra o_regs o_cleared.
+Extraction "c07_model.ml" run_mock7 run_real7 run_mock7_text run_real7_text run_frames7 run_frames7_text run_walk7 run_mock7_src run_real7_src run_frames7_src run_walk7_src x_eip x_esp x_ebp o_status o_cfa o_ra o_regs o_cleared.
